@@ -1,7 +1,9 @@
 /-
-  Helper lemmas for C08: inversion of `LoopAnalysis.getResult` and of `List.mapM` in `Except`.
+  Helper lemmas for C08: inversion of `LoopAnalysis.getResult` / `maybeResult` and of `List.mapM`
+  in `Except`; what a generated / intersected choice object accepts (`rung_valid_iff`,
+  `isValid_foldl_intersection`); soundness of the object `getResult` reports (`getResult_sound'`).
 -/
-import Mwp.Model.Analysis
+import Mwp.Lemmas.Misc15
 namespace Mwp
 namespace Misc08
 open Mwp.Analysis Mwp.LoopAnalysis
@@ -33,47 +35,108 @@ theorem mem_mapM_ok {ε α β : Type} (f : α → Except ε β) :
         · obtain ⟨a', ha', hf⟩ := ih bs hl r hr'
           exact ⟨a', List.mem_cons_of_mem _ ha', hf⟩
 
-/-- the three rungs of `getResult` -/
+/-- every input of a successful `mapM` has its result in the output -/
+theorem mapM_ok_forall {ε α β : Type} (f : α → Except ε β) :
+    ∀ (l : List α) (rs : List β), l.mapM f = .ok rs → ∀ a ∈ l, ∃ b ∈ rs, f a = .ok b := by
+  intro l
+  induction l with
+  | nil => intro rs _ a ha; cases ha
+  | cons a l ih =>
+    intro rs h x hx
+    rw [List.mapM_cons] at h
+    cases ha : f a with
+    | error e => rw [ha] at h; cases h
+    | ok b =>
+      rw [ha] at h
+      cases hl : l.mapM f with
+      | error e => rw [hl] at h; cases h
+      | ok bs =>
+        rw [hl] at h
+        simp only [bind, Except.bind, pure, Except.pure, Except.ok.injEq] at h
+        subst h
+        rcases List.mem_cons.1 hx with rfl | hx'
+        · exact ⟨b, List.mem_cons_self, ha⟩
+        · obtain ⟨b', hb', hf⟩ := ih bs hl x hx'
+          exact ⟨b', List.mem_cons_of_mem _ hb', hf⟩
+
+/-- the object a rung of `getResult` works with: the column's own object, cut down to the choices
+    valid for every source when it is not infinite -/
+def rungObj (valid : Option Choices.T) (c0 : Choices.T) : Choices.T :=
+  match valid with
+  | some va => if !Choices.infinite c0 then Choices.intersection c0 va else c0
+  | none => c0
+
+/-- inversion of `getResult`: the column, the objects of the sources, and the rung that answered -/
 theorem getResult_inv (rel : Relation) (index : Nat) (v : String) (r : VRes)
     (h : getResult rel index v = .ok r) :
-    ∃ c, Choices.infinite c = false ∧
-      (r = ⟨v, true, true, true, some c⟩ ∨ r = ⟨v, false, true, true, some c⟩ ∨
-        r = ⟨v, false, false, true, some c⟩) := by
+    ∃ col, rel.vars.idxOf? v = some col ∧
+      ∃ cs, (sources rel col).mapM (fun u => rel.varEval Gen.domain index u []) = .ok cs ∧
+        (r = VRes.unbounded v ∨
+          ∃ scalars c0, rel.varEval Gen.domain index v scalars = .ok c0 ∧
+            Choices.infinite (rungObj (choiceReduce cs) c0) = false ∧
+            ((scalars = [.w, .p] ∧ r = ⟨v, true, true, true, some (rungObj (choiceReduce cs) c0)⟩) ∨
+             (scalars = [.p] ∧ r = ⟨v, false, true, true, some (rungObj (choiceReduce cs) c0)⟩) ∨
+             (scalars = [] ∧ r = ⟨v, false, false, true, some (rungObj (choiceReduce cs) c0)⟩))) := by
   unfold getResult at h
-  cases hm : rel.varEval Gen.domain index v [.w, .p] with
-  | error e => rw [hm] at h; cases h
-  | ok cm =>
-    rw [hm] at h
+  cases hcol : rel.vars.idxOf? v with
+  | none => rw [hcol] at h; cases h
+  | some col =>
+    rw [hcol] at h
+    refine ⟨col, rfl, ?_⟩
     simp only [bind, Except.bind] at h
-    cases him : Choices.infinite cm with
-    | false =>
-      simp only [him, Bool.not_false, if_true, pure, Except.pure, Except.ok.injEq] at h
-      exact ⟨cm, him, .inl h.symm⟩
-    | true =>
-      simp only [him, Bool.not_true, Bool.false_eq_true, if_false] at h
-      cases hw : rel.varEval Gen.domain index v [.p] with
-      | error e => rw [hw] at h; cases h
-      | ok cw =>
-        rw [hw] at h
+    cases hcs : (sources rel col).mapM (fun u => rel.varEval Gen.domain index u []) with
+    | error e => rw [hcs] at h; cases h
+    | ok cs =>
+      rw [hcs] at h
+      refine ⟨cs, rfl, ?_⟩
+      simp only [pure, Except.pure] at h
+      cases hm : rel.varEval Gen.domain index v [.w, .p] with
+      | error e => rw [hm] at h; cases h
+      | ok cm =>
+        rw [hm] at h
         simp only at h
-        cases hiw : Choices.infinite cw with
+        change (if (!Choices.infinite (rungObj (choiceReduce cs) cm)) = true then _ else _) = _ at h
+        cases him : Choices.infinite (rungObj (choiceReduce cs) cm) with
         | false =>
-          simp only [hiw, Bool.not_false, if_true, pure, Except.pure, Except.ok.injEq] at h
-          exact ⟨cw, hiw, .inr (.inl h.symm)⟩
+          simp only [him, Bool.not_false, if_true, Except.ok.injEq] at h
+          exact .inr ⟨_, cm, hm, him, .inl ⟨rfl, h.symm⟩⟩
         | true =>
-          simp only [hiw, Bool.not_true, Bool.false_eq_true, if_false] at h
-          cases hp : rel.varEval Gen.domain index v [] with
-          | error e => rw [hp] at h; cases h
-          | ok cp =>
-            rw [hp] at h
+          simp only [him, Bool.not_true, Bool.false_eq_true, if_false] at h
+          cases hw : rel.varEval Gen.domain index v [.p] with
+          | error e => rw [hw] at h; cases h
+          | ok cw =>
+            rw [hw] at h
             simp only at h
-            cases hip : Choices.infinite cp with
+            change (if (!Choices.infinite (rungObj (choiceReduce cs) cw)) = true then _ else _) = _ at h
+            cases hiw : Choices.infinite (rungObj (choiceReduce cs) cw) with
             | false =>
-              simp only [hip, Bool.not_false, if_true, pure, Except.pure, Except.ok.injEq] at h
-              exact ⟨cp, hip, .inr (.inr h.symm)⟩
+              simp only [hiw, Bool.not_false, if_true, Except.ok.injEq] at h
+              exact .inr ⟨_, cw, hw, hiw, .inr (.inl ⟨rfl, h.symm⟩)⟩
             | true =>
-              simp only [hip, Bool.not_true, Bool.false_eq_true, if_false] at h
-              cases h
+              simp only [hiw, Bool.not_true, Bool.false_eq_true, if_false] at h
+              cases hp : rel.varEval Gen.domain index v [] with
+              | error e => rw [hp] at h; cases h
+              | ok cp =>
+                rw [hp] at h
+                simp only at h
+                change (if (!Choices.infinite (rungObj (choiceReduce cs) cp)) = true then _ else _) = _ at h
+                cases hip : Choices.infinite (rungObj (choiceReduce cs) cp) with
+                | false =>
+                  simp only [hip, Bool.not_false, if_true, Except.ok.injEq] at h
+                  exact .inr ⟨_, cp, hp, hip, .inr (.inr ⟨rfl, h.symm⟩)⟩
+                | true =>
+                  simp only [hip, Bool.not_true, Bool.false_eq_true, if_false, Except.ok.injEq] at h
+                  exact .inl h.symm
+
+/-- flags of a `getResult` answer -/
+theorem getResult_flags (rel : Relation) (index : Nat) (v : String) (r : VRes)
+    (h : getResult rel index v = .ok r) :
+    (r.isM = true → r.isW = true) ∧ (r.isW = true → r.isP = true) ∧
+      (r.isP = true → ∃ c, r.choices = some c ∧ Choices.infinite c = false) := by
+  obtain ⟨col, _, cs, _, hr⟩ := getResult_inv rel index v r h
+  rcases hr with rfl | ⟨S, c0, _, hinf, ⟨_, rfl⟩ | ⟨_, rfl⟩ | ⟨_, rfl⟩⟩
+  · simp [VRes.unbounded]
+  all_goals exact ⟨by simp, by simp, fun _ => ⟨_, rfl, hinf⟩⟩
 
 /-- every entry of `maybeResult` is either `VRes.unbounded` or a `getResult` -/
 theorem maybeResult_inv (rel : Relation) (index : Nat) (pick : Option (List Nat)) (rs : List VRes)
@@ -109,6 +172,290 @@ theorem maybeResult_inv (rel : Relation) (index : Nat) (pick : Option (List Nat)
               · exact .inr ⟨v, hf⟩
               · simp only [pure, Except.pure, Except.ok.injEq] at hf
                 exact .inl ⟨v, hf.symm⟩
+
+/-! ## what the choice objects accept -/
+
+open Mwp.Choices in
+/-- a generated object has vectors of the right length -/
+theorem generate_shape (domain : List Nat) (n : Nat) (inf : List Seq) (c : T)
+    (hd : domain.Nodup) (hne : domain ≠ []) (hwf : ∀ s ∈ inf, WFSeq domain n s)
+    (h : generate domain n inf = .ok c) : ∀ w ∈ c.valid, w.length = n := by
+  obtain ⟨s', hs, hswf, _⟩ := simplify_ok domain n inf hd hne hwf
+  obtain ⟨vs, hb, hshape, _⟩ := buildChoices_ok domain n s' hd hne hswf
+  have hgen : generate domain n inf = .ok (mk vs n) := by
+    unfold generate
+    rw [hs]
+    show (do let v ← buildChoices domain n s'; pure (mk v (n : Int))) = _
+    rw [hb]
+    rfl
+  have hmk : mk vs (n : Int) = ⟨vs, n⟩ := by
+    unfold mk
+    have : ¬ ((n : Int) < 0) := by omega
+    simp [this]
+  rw [hgen, hmk] at h
+  cases h
+  exact fun w hw => (hshape w hw).1
+
+open Mwp.Choices in
+theorem intersection_valid (c1 c2 : T) :
+    (intersection c1 c2).valid =
+      c1.valid.flatMap fun v1 => c2.valid.filterMap fun v2 => vectIntersection v1 v2 := by
+  unfold intersection mk
+  split <;> rfl
+
+open Mwp.Choices in
+theorem intersection_shape (c1 c2 : T) (n : Nat) (h1 : ∀ w ∈ c1.valid, w.length = n)
+    (h2 : ∀ w ∈ c2.valid, w.length = n) : ∀ w ∈ (intersection c1 c2).valid, w.length = n := by
+  intro w hw
+  rw [intersection_valid, List.mem_flatMap] at hw
+  obtain ⟨v1, hv1, hw⟩ := hw
+  rw [List.mem_filterMap] at hw
+  obtain ⟨v2, hv2, hw⟩ := hw
+  unfold vectIntersection at hw
+  simp only at hw
+  split at hw
+  · cases hw
+  · cases hw
+    simp [h1 v1 hv1, h2 v2 hv2]
+
+open Mwp.Choices in
+/-- the fold of `choice_reduce` accepts exactly what all its arguments accept -/
+theorem isValid_foldl_intersection (n : Nat) (vec : List Nat) (hv : vec.length = n) :
+    ∀ (cs : List T) (c : T), (∀ w ∈ c.valid, w.length = n) →
+      (∀ c' ∈ cs, ∀ w ∈ c'.valid, w.length = n) →
+      (∀ w ∈ (cs.foldl intersection c).valid, w.length = n) ∧
+      (isValid (cs.foldl intersection c) vec = true ↔
+        isValid c vec = true ∧ ∀ c' ∈ cs, isValid c' vec = true) := by
+  intro cs
+  induction cs with
+  | nil => intro c hc _; exact ⟨hc, by simp⟩
+  | cons a t ih =>
+    intro c hc hcs
+    have ha := hcs a List.mem_cons_self
+    obtain ⟨hs, hiff⟩ := ih (intersection c a) (intersection_shape c a n hc ha)
+      (fun c' hc' => hcs c' (List.mem_cons_of_mem _ hc'))
+    refine ⟨hs, ?_⟩
+    rw [List.foldl_cons, hiff, Props.C04.intersection_exact c a n vec hv hc ha]
+    simp only [Bool.and_eq_true, List.mem_cons, forall_eq_or_imp]
+    exact ⟨fun ⟨⟨x, y⟩, z⟩ => ⟨x, y, z⟩, fun ⟨x, y, z⟩ => ⟨⟨x, y⟩, z⟩⟩
+
+theorem add_rank (a b : Scalar) : (a + b).rank = max a.rank b.rank := by
+  cases a <;> cases b <;> rfl
+
+theorem sumAll_rank_le (l : List Scalar) (k : Nat) :
+    (Poly.sumAll l).rank ≤ k ↔ ∀ s ∈ l, s.rank ≤ k := by
+  induction l with
+  | nil => simp [Mwp.Lemmas.Poly.sumAll_nil, Scalar.rank]
+  | cons a t ih =>
+    rw [Mwp.Lemmas.Poly.sumAll_cons, add_rank, Nat.max_le, ih]
+    simp
+
+theorem evalD_rank_le (p : Poly) (vec : Choice) (k : Nat) :
+    (p.evalD vec).rank ≤ k ↔ ∀ m ∈ p, m.matchesC vec = true → m.scalar.rank ≤ k := by
+  unfold Poly.evalD Poly.matching
+  rw [sumAll_rank_le]
+  simp only [List.mem_map, List.mem_filter]
+  constructor
+  · intro h m hm hmt; exact h _ ⟨m, ⟨hm, hmt⟩, rfl⟩
+  · rintro h s ⟨m, ⟨hm, hmt⟩, rfl⟩; exact h m hm hmt
+
+/-- the scalar list of a rung selects the monomials above a rank -/
+def RungOf (S : List Scalar) (k : Nat) : Prop :=
+  ∀ s : Scalar, (s == .i || S.contains s) = true ↔ ¬ s.rank ≤ k
+
+theorem rungOf_m : RungOf [.w, .p] 1 := by intro s; cases s <;> decide
+theorem rungOf_w : RungOf [.p] 2 := by intro s; cases s <;> decide
+theorem rungOf_p : RungOf [] 3 := by intro s; cases s <;> decide
+
+/-- avoiding the delta lists a rung collects in a column = the column stays within the rung's
+    rank at the vector -/
+theorem avoids_colInfDeltas (rel : Relation) (col : Nat) (S : List Scalar) (k : Nat)
+    (hS : RungOf S k) (vec : List Nat) :
+    Choices.Avoids (Choices.dedup (rel.colInfDeltas col S)) vec ↔
+      ∀ row ∈ rel.mat, ((row.getD col Poly.zero).evalD vec).rank ≤ k := by
+  unfold Choices.Avoids
+  simp only [Choices.mem_dedup, Relation.colInfDeltas, Poly.evalInf, List.mem_flatMap, List.mem_map,
+    List.mem_filter]
+  constructor
+  · intro h row hrow
+    rw [evalD_rank_le]
+    intro m hm hmt
+    refine Classical.byContradiction fun hk => ?_
+    have := h m.deltas ⟨row, hrow, m, ⟨hm, (hS m.scalar).2 hk⟩, rfl⟩
+    rw [show Choices.matchesSeq m.deltas vec = m.matchesC vec from rfl, hmt] at this
+    cases this
+  · rintro h s ⟨row, hrow, m, ⟨hm, hsel⟩, rfl⟩
+    cases hmt : Choices.matchesSeq m.deltas vec with
+    | false => rfl
+    | true =>
+      exfalso
+      exact (hS m.scalar).1 hsel ((evalD_rank_le _ vec k).1 (h row hrow) m hm hmt)
+
+/-- the object `varEval` generates for a column accepts exactly the vectors at which the column
+    stays within the rung's rank -/
+theorem varEval_valid_iff (rel : Relation) (index : Nat) (u : String) (cu : Nat)
+    (hu : rel.vars.idxOf? u = some cu) (S : List Scalar) (k : Nat) (hS : RungOf S k)
+    (hwf : ∀ s ∈ rel.colInfDeltas cu S, Choices.WFSeq Gen.domain index s)
+    (c : Choices.T) (h : rel.varEval Gen.domain index u S = .ok c)
+    (vec : List Nat) (hv : Choices.VecOK Gen.domain index vec) :
+    (∀ w ∈ c.valid, w.length = index) ∧
+    (Choices.isValid c vec = true ↔
+      ∀ row ∈ rel.mat, ((row.getD cu Poly.zero).evalD vec).rank ≤ k) := by
+  unfold Relation.varEval at h
+  rw [hu] at h
+  simp only at h
+  have hwf' : ∀ s ∈ Choices.dedup (rel.colInfDeltas cu S), Choices.WFSeq Gen.domain index s :=
+    fun s hs => hwf s ((Choices.mem_dedup _ _).1 hs)
+  refine ⟨generate_shape Gen.domain index _ c (by decide) (by decide) hwf' h, ?_⟩
+  obtain ⟨c', hgen, hvalid, _⟩ := Props.C04.generate_exact Gen.domain index _ (by decide) (by decide) hwf'
+  rw [hgen] at h
+  cases h
+  rw [hvalid vec hv]
+  exact avoids_colInfDeltas rel cu S k hS vec
+
+theorem colInfDeltas_mono (rel : Relation) (col : Nat) (S S' : List Scalar)
+    (hsub : ∀ x ∈ S, x ∈ S') : ∀ s ∈ rel.colInfDeltas col S, s ∈ rel.colInfDeltas col S' := by
+  intro s hs
+  simp only [Relation.colInfDeltas, Poly.evalInf, List.mem_flatMap, List.mem_map, List.mem_filter] at hs ⊢
+  obtain ⟨row, hrow, m, ⟨hm, hsel⟩, rfl⟩ := hs
+  refine ⟨row, hrow, m, ⟨hm, ?_⟩, rfl⟩
+  simp only [Bool.or_eq_true, List.contains_iff_mem] at hsel ⊢
+  exact hsel.imp id (hsub _)
+
+theorem rank_le_three (s : Scalar) : s.rank ≤ 3 ↔ s ≠ .i := by cases s <;> decide
+
+/-- soundness of the object `getResult` reports, by rung: at an accepted vector the column of `v`
+    stays within the rung's rank, and the column of every source of `v` is free of ∞ -/
+theorem getResult_sound' (rel : Relation) (index : Nat) (v : String) (r : VRes)
+    (h : getResult rel index v = .ok r) (c : Choices.T) (hc : r.choices = some c)
+    (vec : List Nat) (hv : Choices.VecOK Gen.domain index vec) (hacc : Choices.isValid c vec = true)
+    (col : Nat) (hcol : rel.vars.idxOf? v = some col)
+    (hwf : ∀ s ∈ rel.colInfDeltas col [.w, .p], Choices.WFSeq Gen.domain index s)
+    (hwfs : ∀ u ∈ sources rel col, ∀ cu, rel.vars.idxOf? u = some cu →
+      ∀ s ∈ rel.colInfDeltas cu [], Choices.WFSeq Gen.domain index s) :
+    (∃ k, (k = 1 ∧ r.isM = true ∨ k = 2 ∧ r.isM = false ∧ r.isW = true ∨
+          k = 3 ∧ r.isW = false ∧ r.isP = true) ∧
+        ∀ row ∈ rel.mat, ((row.getD col Poly.zero).evalD vec).rank ≤ k) ∧
+    ∀ u ∈ sources rel col, ∀ cu, rel.vars.idxOf? u = some cu →
+      ∀ row ∈ rel.mat, (row.getD cu Poly.zero).evalD vec ≠ .i := by
+  obtain ⟨col', hcol', cs, hcs, hr⟩ := getResult_inv rel index v r h
+  have : col' = col := by rw [hcol] at hcol'; exact (Option.some.inj hcol').symm
+  subst this
+  -- the objects of the sources
+  have hsrc : ∀ c' ∈ cs, (∀ w ∈ c'.valid, w.length = index) := by
+    intro c' hc'
+    obtain ⟨u, hu, hf⟩ := mem_mapM_ok _ _ _ hcs c' hc'
+    cases hcu : rel.vars.idxOf? u with
+    | none => simp only [Relation.varEval, hcu] at hf; cases hf
+    | some cu =>
+      exact (varEval_valid_iff rel index u cu hcu [] 3 rungOf_p (hwfs u hu cu hcu) c' hf vec hv).1
+  have hsrcv : (∀ c' ∈ cs, Choices.isValid c' vec = true) →
+      ∀ u ∈ sources rel col', ∀ cu, rel.vars.idxOf? u = some cu →
+        ∀ row ∈ rel.mat, (row.getD cu Poly.zero).evalD vec ≠ .i := by
+    intro hall u hu cu hcu row hrow
+    obtain ⟨c', hc', hf⟩ := mapM_ok_forall _ _ _ hcs u hu
+    have := ((varEval_valid_iff rel index u cu hcu [] 3 rungOf_p (hwfs u hu cu hcu) c' hf vec hv).2).1
+      (hall c' hc') row hrow
+    exact (rank_le_three _).1 this
+  -- the answering rung
+  have key : ∀ (S : List Scalar) (k : Nat) (c0 : Choices.T), RungOf S k → (∀ x ∈ S, x ∈ [Scalar.w, .p]) →
+      rel.varEval Gen.domain index v S = .ok c0 →
+      Choices.isValid (rungObj (choiceReduce cs) c0) vec = true →
+      (∀ row ∈ rel.mat, ((row.getD col' Poly.zero).evalD vec).rank ≤ k) ∧
+      ∀ u ∈ sources rel col', ∀ cu, rel.vars.idxOf? u = some cu →
+        ∀ row ∈ rel.mat, (row.getD cu Poly.zero).evalD vec ≠ .i := by
+    intro S k c0 hS hsub h0 hval
+    obtain ⟨hshape0, hiff0⟩ := varEval_valid_iff rel index v col' hcol S k hS
+      (fun s hs => hwf s (colInfDeltas_mono rel col' S _ hsub s hs)) c0 h0 vec hv
+    cases cs with
+    | nil =>
+      -- no sources
+      have hnil : sources rel col' = [] := by
+        cases hsl : sources rel col' with
+        | nil => rfl
+        | cons a t =>
+          rw [hsl, List.mapM_cons] at hcs
+          simp only [bind, Except.bind] at hcs
+          split at hcs
+          · cases hcs
+          · split at hcs
+            · cases hcs
+            · cases hcs
+      refine ⟨hiff0.1 hval, ?_⟩
+      intro u hu; rw [hnil] at hu; cases hu
+    | cons a t =>
+      have hfold := isValid_foldl_intersection index vec hv.1 t a (hsrc a List.mem_cons_self)
+        (fun c' hc' => hsrc c' (List.mem_cons_of_mem _ hc'))
+      simp only [rungObj, choiceReduce] at hval
+      cases hi0 : Choices.infinite c0 with
+      | true =>
+        -- an infinite object accepts nothing
+        exfalso
+        have : c0.valid = [] := by
+          simp only [Choices.infinite, Bool.and_eq_true, List.isEmpty_iff] at hi0
+          exact hi0.1
+        simp only [hi0, Bool.not_true, Bool.false_eq_true, if_false] at hval
+        simp [Choices.isValid, this] at hval
+      | false =>
+        simp only [hi0, Bool.not_false, if_true] at hval
+        rw [Props.C04.intersection_exact c0 _ index vec hv.1 hshape0 hfold.1, Bool.and_eq_true] at hval
+        refine ⟨hiff0.1 hval.1, hsrcv ?_⟩
+        have := hfold.2.1 hval.2
+        intro c' hc'
+        rcases List.mem_cons.1 hc' with rfl | hc'
+        · exact this.1
+        · exact this.2 c' hc'
+  rcases hr with rfl | ⟨S, c0, h0, _, ⟨rfl, rfl⟩ | ⟨rfl, rfl⟩ | ⟨rfl, rfl⟩⟩
+  · cases hc
+  · simp only [Option.some.injEq] at hc; subst hc
+    obtain ⟨k1, k2⟩ := key _ 1 c0 rungOf_m (fun x hx => hx) h0 hacc
+    exact ⟨⟨1, .inl ⟨rfl, rfl⟩, k1⟩, k2⟩
+  · simp only [Option.some.injEq] at hc; subst hc
+    obtain ⟨k1, k2⟩ := key _ 2 c0 rungOf_w (fun x hx => by simp at hx; simp [hx]) h0 hacc
+    exact ⟨⟨2, .inr (.inl ⟨rfl, rfl, rfl⟩), k1⟩, k2⟩
+  · simp only [Option.some.injEq] at hc; subst hc
+    obtain ⟨k1, k2⟩ := key _ 3 c0 rungOf_p (fun x hx => by cases hx) h0 hacc
+    exact ⟨⟨3, .inr (.inr ⟨rfl, rfl, rfl⟩), k1⟩, k2⟩
+
+theorem rank_le_one (s : Scalar) : s.rank ≤ 1 ↔ s = .o ∨ s = .m := by cases s <;> decide
+theorem rank_le_two (s : Scalar) : s.rank ≤ 2 ↔ s ≠ .p ∧ s ≠ .i := by cases s <;> decide
+
+/-- **soundness of the reported choice object**: at every vector it accepts, the column of `v` and
+    the column of every variable flowing into `v` are free of ∞; moreover a `w` flag excludes `p`
+    and an `m` flag excludes `w` and `p` in the column of `v` -/
+theorem getResult_sound (rel : Relation) (index : Nat) (v : String) (r : VRes)
+    (h : getResult rel index v = .ok r) (c : Choices.T) (hc : r.choices = some c)
+    (vec : List Nat) (hv : Choices.VecOK Gen.domain index vec) (hacc : Choices.isValid c vec = true)
+    (col : Nat) (hcol : rel.vars.idxOf? v = some col)
+    (hwf : ∀ s ∈ rel.colInfDeltas col [.w, .p], Choices.WFSeq Gen.domain index s)
+    (hwfs : ∀ u ∈ sources rel col, ∀ cu, rel.vars.idxOf? u = some cu →
+      ∀ s ∈ rel.colInfDeltas cu [], Choices.WFSeq Gen.domain index s) :
+    (∀ row ∈ rel.mat, (row.getD col Poly.zero).evalD vec ≠ .i) ∧
+    (∀ u ∈ sources rel col, ∀ cu, rel.vars.idxOf? u = some cu →
+      ∀ row ∈ rel.mat, (row.getD cu Poly.zero).evalD vec ≠ .i) ∧
+    (r.isW = true → ∀ row ∈ rel.mat, (row.getD col Poly.zero).evalD vec ≠ .p) ∧
+    (r.isM = true → ∀ row ∈ rel.mat,
+      (row.getD col Poly.zero).evalD vec = .o ∨ (row.getD col Poly.zero).evalD vec = .m) := by
+  obtain ⟨⟨k, hk, hrank⟩, hsrc⟩ :=
+    getResult_sound' rel index v r h c hc vec hv hacc col hcol hwf hwfs
+  have hflags := (getResult_flags rel index v r h).1
+  refine ⟨?_, hsrc, ?_, ?_⟩
+  · intro row hrow
+    apply (rank_le_three _).1
+    have := hrank row hrow
+    rcases hk with ⟨rfl, _⟩ | ⟨rfl, _⟩ | ⟨rfl, _⟩ <;> omega
+  · intro hw row hrow
+    have := hrank row hrow
+    rcases hk with ⟨rfl, _⟩ | ⟨rfl, _⟩ | ⟨rfl, hw', _⟩
+    · exact ((rank_le_two _).1 (by omega)).1
+    · exact ((rank_le_two _).1 this).1
+    · rw [hw] at hw'; cases hw'
+  · intro hm row hrow
+    have := hrank row hrow
+    rcases hk with ⟨rfl, _⟩ | ⟨rfl, hm', _⟩ | ⟨rfl, hw', _⟩
+    · exact (rank_le_one _).1 this
+    · rw [hm] at hm'; cases hm'
+    · rw [hflags hm] at hw'; cases hw'
 
 end Misc08
 end Mwp
